@@ -181,15 +181,46 @@ def eval_test(facts, test, obj, cls):
             and test[2][2] == (obj,) and test[3][0] == 'name' and test[3][1] in facts.classes:
         r = cls == test[3][1]
         return r if test[1] in ('is', '==') else not r
+    if test[0] == 'call' and test[1] == 'hasattr' and len(test[2]) == 2 and not test[3] and test[2][0] == obj and is_const(test[2][1]) \
+            and isinstance(test[2][1][1], str):
+        # hasattr(item, 'aq'): decided by the class model (attributes stored by the constructor chain, methods, class-level names)
+        attr = test[2][1][1]
+        import ast
+        for c in facts.mro(cls):
+            for st in facts.classes[c].node.body:
+                if isinstance(st, (ast.FunctionDef, ast.ClassDef)) and st.name == attr:
+                    return True
+                if isinstance(st, ast.Assign) and any(isinstance(t, ast.Name) and t.id == attr for t in st.targets):
+                    return True
+        if attr in [a for a, _ in facts.full_attr_order(cls)]:
+            return True
+        if facts.init_understood(cls) and all(b in facts.classes or b in ('object', 'abc.ABC', 'ABC') for c in facts.mro(cls) for b in facts.classes[c].bases):
+            return False
+        return None
+    if test[0] == 'cmp' and test[1] in ('==', '!=', '<', '<=', '>', '>=') and any(t == obj for t in subterms(test)):
+        # a comparison of class-determined constants: item.size() == 2, item.WORD_FORMAT == '<H'
+        try:
+            a, b = value_under_class(facts, test[2], obj, cls), value_under_class(facts, test[3], obj, cls)
+            return {'==': a == b, '!=': a != b, '<': a < b, '<=': a <= b, '>': a > b, '>=': a >= b}[test[1]]
+        except (NotUnderstood, TypeError):
+            return None
     return None
 
 
 def compatible(facts, path, obj, cls):
+    """Can an item whose exact class is `cls` take this path?"""
     for test, pol, _ in path.conds:
         r = eval_test(facts, test, obj, cls)
         if r is not None and r != pol:
             return False
     return True
+
+
+def undecided_item_conditions(facts, path, obj, cls):
+    """Conditions of the path that look at the item and are not decided by its class (an attribute value, a helper predicate): the
+    path may be one that items of this class never take, so a mismatch found on it is not a finding."""
+    return [test for test, pol, _ in path.conds
+            if eval_test(facts, test, obj, cls) is None and any(t == obj for t in subterms(test))]
 
 
 def concrete_instruction_classes(facts):
@@ -510,7 +541,10 @@ def check_pack_rule(report, facts, rule, fn_name='resolve_instructions'):
     problems = {}           # (class) -> list of (node, message)
     report.count('paths through ' + fn_name, len(paths))
 
-    def fail(cls, node, msg):
+    def fail(cls, node, msg, open_conds=()):
+        if open_conds:
+            raise AnalysisError('{}: {} (on a path that rests on the condition {} about the item, which the item class does not decide: '
+                                'whether {} items take it is not understood)'.format(fn_name, msg[:120], show(open_conds[0])[:60], cls))
         problems.setdefault(cls, []).append((node, msg))
 
     for path in paths:
@@ -528,10 +562,11 @@ def check_pack_rule(report, facts, rule, fn_name='resolve_instructions'):
             continue
         args_term = ('mcall', item, 'args', (), ())
         for cls in classes:
-            if not compatible(facts, path, item, cls):
-                continue
             if path.end == 'raise':
                 continue            # a refusal: nothing is emitted for the item
+            if not compatible(facts, path, item, cls):
+                continue
+            open_conds = undecided_item_conditions(facts, path, item, cls)
             if not packs:
                 raise AnalysisError('{}: a path taken by {} items ends without struct.pack ({}): how the word is emitted is not '
                                     'understood'.format(fn_name, cls, path.cond_text()))
@@ -563,8 +598,14 @@ def check_pack_rule(report, facts, rule, fn_name='resolve_instructions'):
             if code[0] != 'callv' or strip(code[1])[0] != 'sub' or strip(code[1])[1] != ('name', 'INSTRUCTIONS'):
                 raise AnalysisError('{}: the value packed is not the result of a call of INSTRUCTIONS[...]: {}'.format(fn_name, show(code)))
             key = strip(code[1])[2]
+            key = strip(key)
             if key != ('attr', item, 'name'):
-                fail(cls, node, 'the encoder is not looked up by the item\'s own mnemonic: INSTRUCTIONS[{}]'.format(show(key)))
+                # positively another key: an attribute of another object, another attribute of the item, a constant; anything else
+                # (a conversion of the name, an expression the walk does not follow) is not understood
+                wrong = is_const(key) or (key[0] == 'attr' and key[1] == item) or (key[0] == 'attr' and key[2] == 'name' and key[1][0] in ('name', 'var', 'lv', 'item'))
+                if not wrong:
+                    raise AnalysisError('{}: the key the encoder is looked up with is not understood: INSTRUCTIONS[{}]'.format(fn_name, show(key)[:60]))
+                fail(cls, node, 'the encoder is not looked up by the item\'s own mnemonic: INSTRUCTIONS[{}]'.format(show(key)), open_conds=open_conds)
                 continue
             # (2) arguments
             length = None
@@ -574,7 +615,7 @@ def check_pack_rule(report, facts, rule, fn_name='resolve_instructions'):
             try:
                 pos, kws = call_arguments(code, args_term, length)
             except Arity as e:
-                fail(cls, node, '{} items: {}'.format(cls, e))
+                fail(cls, node, '{} items: {}'.format(cls, e), open_conds=open_conds)
                 continue
             except NotUnderstood as e:
                 raise AnalysisError('{}: arguments of the encoder call not understood ({}): {}'.format(fn_name, e, show(code)))
@@ -591,12 +632,12 @@ def check_pack_rule(report, facts, rule, fn_name='resolve_instructions'):
             if not ok_args:
                 if is_a:
                     fail(cls, node, '{} items: the encoder must receive args()[0..{}] positionally and the last two as aq=, rl= (in that '
-                                    'order); it receives {}'.format(cls, length - 3, got))
+                                    'order); it receives {}'.format(cls, length - 3, got), open_conds=open_conds)
                 elif kws:
                     fail(cls, node, '{} items: keyword form used for a class whose args() does not end in aq, rl (classes that do: {}); '
-                                    'the encoder receives {}'.format(cls, a_classes, got))
+                                    'the encoder receives {}'.format(cls, a_classes, got), open_conds=open_conds)
                 else:
-                    fail(cls, node, '{} items: arguments do not follow args() order: the encoder receives {}'.format(cls, got))
+                    fail(cls, node, '{} items: arguments do not follow args() order: the encoder receives {}'.format(cls, got), open_conds=open_conds)
                 continue
             # (3) format
             try:
@@ -615,7 +656,7 @@ def check_pack_rule(report, facts, rule, fn_name='resolve_instructions'):
             want = '<H' if compressed else '<I'
             if got_descr != describe_format(want):
                 fail(cls, node, 'instruction words must be packed as {!r} (little-endian unsigned {}-bit) for {} items, found {!r}'.format(
-                    want, 16 if compressed else 32, cls, fmt))
+                    want, 16 if compressed else 32, cls, fmt), open_conds=open_conds)
                 continue
             report.ok(rule, '{} [{}]: struct.pack({!r}, INSTRUCTIONS[item.name]({}))'.format(
                 cls, path.cond_text()[:120], fmt, '*item.args()' if not is_a else '*args()[:-2], aq=args()[-2], rl=args()[-1]'))
